@@ -157,6 +157,9 @@ def geometry(ctx, f, need):
     for (k_need, k_tier), val in cache.items():
         if k_tier == ctx.tier and set(need) <= set(k_need):
             return val
+    if os.environ.get("FQR_GEOM_ALL"):
+        need = set(need) | {"blank", "format", "masks", "place"}
+        key = (tuple(sorted(need)), ctx.tier)
     want = {}
     if "format" in need:
         want["format"] = _format_combos_all if ctx.tier == "thorough" else _format_combos_quick
@@ -1163,3 +1166,513 @@ def c18_r2(ctx, f, rid="C18.R2"):
     und.emit(ctx, rid, "SvgBuilder::image", where_fn(fn))
     ctx.floor(rid, "placements evaluated", n_ok + und.count + sum(len(e["insts"]) for e in groups.g.values()), 2040)
     return not und.count
+
+
+# ---------------------------------------------------------------------------------------------------------------------
+# C06.R3: push_bits / push_u8 are exact bit appenders;  C06.R2: the segment encoders emit the ISO 7.4 bit stream
+# ---------------------------------------------------------------------------------------------------------------------
+
+CQ = "compact::CompactQR"
+
+
+def _u8(x):
+    return fold.mk_int("u8", x)
+
+
+def _bits_of_cell(c):
+    """abstract byte -> list of 8 bit descriptors (index 0 = least significant)"""
+    if c == TOP:
+        return [None] * 8
+    if c[0] == "int":
+        return [(c[2] >> k) & 1 for k in range(8)]
+    if c[0] == "bv":
+        return list(c[2][:8])
+    if c[0] == "sbyte":
+        return [("b", ("sbyte", c[1]), k) for k in range(8)]
+    return [None] * 8
+
+
+def _key_canon(key):
+    if isinstance(key, tuple) and key and key[0] == "lin":
+        return ("lin", key[2], tuple(sorted(key[3], key=repr)))
+    return ("atom", key)
+
+
+def _bit_canon(b):
+    if b in (0, 1) or b is None:
+        return b
+    return ("b", _key_canon(b[1]), b[2])
+
+
+def c06_r3(ctx, f, rid="C06.R3"):
+    ctx.rule(rid, "push_bits / push_u8 by partial evaluation on symbolic words: append exactly the low `len` bits, most significant "
+                  "first, after the bits already present, for every alignment and width")
+    fpb = anchor_fn(ctx, rid, f, CQ + "::push_bits", ["&mut " + CQ, "usize", "usize"], "()")
+    fp8 = anchor_fn(ctx, rid, f, CQ + "::push_u8", ["&mut " + CQ, "u8"], "()")
+    if not (fpb and fp8):
+        return None
+    groups = _Groups()
+    und = _Und()
+    n_ok = 0
+
+    def prev(L, nbytes):
+        out = []
+        for i in range(nbytes):
+            bits = tuple(("b", ("prev",), i * 8 + (7 - k)) if i * 8 + (7 - k) < L else 0 for k in range(8))
+            out.append(("bv", "u8", bits) if any(b != 0 for b in bits) else _u8(0))
+        return out
+
+    def evaluate(path, L, w, val):
+        pe = peval.PEval(f, max_steps=200000)
+        pe.arith = True
+        nbytes = (L + w) // 8 + 2
+        h = pe.heap.new(nbytes, _u8(0))
+        for i, b in enumerate(prev(L, nbytes)):
+            pe.heap.put(h, i, b)
+        cq = ("adt", CQ, 0, "CompactQR", (fold.mk_int("usize", L), h))
+        args = [("cell", 0), val] + ([fold.mk_int("usize", w)] if path.endswith("push_bits") else [])
+        r = pe.run(path, args, cells=[cq])
+        if r.kind != "ret":
+            return r.kind, r.why
+        out = r.cells[0]
+        if out == TOP or out[0] != "adt" or out[4][1] == TOP or out[4][1][0] != "harr":
+            return "top", "CompactQR lost its shape"
+        cells = [pe.heap.get(out[4][1], i) for i in range(pe.heap.length(out[4][1]))]
+        problems = []
+        if out[4][0] != fold.mk_int("usize", L + w):
+            problems.append(("len", L + w, to_py(out[4][0])))
+        for i, c in enumerate(cells):
+            bits = _bits_of_cell(c)
+            for k in range(8):
+                pos = i * 8 + (7 - k)
+                exp = ("b", ("prev",), pos) if pos < L else (("b", ("arg",), w - 1 - (pos - L)) if pos < L + w else 0)
+                if bits[k] != exp:
+                    problems.append(("stream bit %d" % pos, exp, bits[k]))
+        return "ret", problems
+
+    for L in range(0, 20):
+        for w in range(0, 21):
+            val = ("bv", "usize", tuple(("b", ("arg",), k) for k in range(64)))
+            kind, res = evaluate(fpb.path, L, w, val)
+            inst = "push_bits len%%8=%d (len=%d) width=%d" % (L % 8, L, w)
+            if kind == "diverge":
+                groups.add("push_bits/panics", inst, "appended", res)
+            elif kind != "ret":
+                und.add(res, inst)
+            elif res:
+                groups.add("push_bits/%s" % res[0][0].split()[0], inst, res[0][1], res[0][2])
+            else:
+                n_ok += 1
+        val = ("bv", "u8", tuple(("b", ("arg",), k) for k in range(8)))
+        kind, res = evaluate(fp8.path, L, 8, val)
+        inst = "push_u8 len%%8=%d (len=%d)" % (L % 8, L)
+        if kind == "diverge":
+            groups.add("push_u8/panics", inst, "appended", res)
+        elif kind != "ret":
+            und.add(res, inst)
+        elif res:
+            groups.add("push_u8/%s" % res[0][0].split()[0], inst, res[0][1], res[0][2])
+        else:
+            n_ok += 1
+    if n_ok:
+        ctx.ok(rid, "%d (alignment, width) cells: exactly the low `width` bits appended MSB-first, earlier bits kept, length advanced" % n_ok, n=n_ok)
+    groups.emit(ctx, rid, CQ, where_fn(fpb), fpb.path, "the bit appender does not append exactly the requested bits in order "
+                "(first configuration shown; `arg` bit k is bit k of the pushed value, `prev` the bits already stored)")
+    und.emit(ctx, rid, "bit appender", where_fn(fpb))
+    ctx.floor(rid, "(alignment, width) cells", n_ok + und.count + sum(len(e["insts"]) for e in groups.g.values()), 440)
+    return not und.count
+
+
+MODE_IND = {"Numeric": 0b0001, "Alphanumeric": 0b0010, "Byte": 0b0100}
+
+
+def _expected_stream(mode, v, l, n):
+    """ISO/IEC 18004 7.4: list of bit descriptors (0 | 1 | ('b', canon key, k)) of the data codewords"""
+    bits = []
+
+    def const(val, w):
+        for k in range(w - 1, -1, -1):
+            bits.append((val >> k) & 1)
+
+    def expr(c0, terms, w, maxv):
+        terms = tuple(sorted(((a, c) for a, c in terms if c), key=repr))
+        if c0 == 0 and len(terms) == 1 and terms[0][1] == 1:
+            key = ("atom", terms[0][0])
+        else:
+            key = ("lin", c0, terms)
+        width = max(1, maxv.bit_length())
+        for k in range(w - 1, -1, -1):
+            bits.append(("b", key, k) if k < width else 0)
+
+    const(MODE_IND[mode], 4)
+    const(n, ref.cci_bits(v, mode))
+    if mode == "Numeric":
+        i = 0
+        while i + 3 <= n:
+            expr(-48 * 111, [(("sbyte", i), 100), (("sbyte", i + 1), 10), (("sbyte", i + 2), 1)], 10, 999)
+            i += 3
+        if n - i == 2:
+            expr(-48 * 11, [(("sbyte", i), 10), (("sbyte", i + 1), 1)], 7, 99)
+        elif n - i == 1:
+            expr(-48, [(("sbyte", i), 1)], 4, 9)
+    elif mode == "Alphanumeric":
+        i = 0
+        while i + 2 <= n:
+            expr(0, [(("alnum", i), 45), (("alnum", i + 1), 1)], 11, 44 * 45 + 44)
+            i += 2
+        if n - i == 1:
+            expr(0, [(("alnum", i), 1)], 6, 44)
+    else:
+        for i in range(n):
+            expr(0, [(("sbyte", i), 1)], 8, 255)
+    cap = 8 * ref.data_codewords(v, l)
+    if len(bits) > cap:
+        return None  # over capacity: not a configuration the gate admits
+    bits += [0] * min(4, cap - len(bits))
+    bits += [0] * ((8 - len(bits) % 8) % 8)
+    k = 0
+    while len(bits) < cap:
+        const(0xEC if k % 2 == 0 else 0x11, 8)
+        k += 1
+    return bits
+
+
+def _encode_job(cfg):
+    mode, v, l, n = cfg
+    f = _G["facts"]
+    pe = peval.PEval(f, max_steps=20_000_000)
+    pe.arith = True
+    if mode == "Numeric":
+        pe.atom_ranges = {"sbyte": (48, 57)}
+        pe.summaries["core::num::<impl u8>::is_ascii_digit"] = lambda pe_, st, a, t: fold.mk_bool(True)
+    elif mode == "Alphanumeric":
+        pe.atom_ranges = {"sbyte": (0, 255), "alnum": (0, 44)}
+
+        def a2a(pe_, st, a, t):
+            c = a[0]
+            if c != TOP and c[0] == "sbyte":
+                return ("lin", "usize", 0, ((("alnum", c[1]), 1),))
+            raise fold._Abort("top", "ascii_to_alphanumeric called on something other than a payload byte")
+        pe.summaries["encode::ascii_to_alphanumeric"] = a2a
+    else:
+        pe.atom_ranges = {"sbyte": (0, 255)}
+    r = pe.call("encode::encode", [("ref", ("const", ("symvec", n))), mk_enum(ECL, l), mk_enum(MODE, mode), mk_enum(VERSION, "V%02d" % v)])
+    if r.kind != "ret":
+        return cfg, r.kind, r.why
+    cq = r.value
+    if cq == TOP or cq[0] != "adt" or len(cq[4]) < 2 or cq[4][1] == TOP or cq[4][1][0] != "harr":
+        return cfg, "top", "encode() does not return a CompactQR with a known vector"
+    h = cq[4][1]
+    nb = ref.data_codewords(v, l)
+    if pe.heap.length(h) < nb:
+        return cfg, "ret", [("length", nb, pe.heap.length(h))]
+    exp = _expected_stream(mode, v, l, n)
+    problems = []
+    for i in range(nb):
+        got = [_bit_canon(b) for b in _bits_of_cell(pe.heap.get(h, i))]
+        for k in range(8):
+            pos = i * 8 + (7 - k)
+            if got[k] != exp[pos]:
+                problems.append(("bit %d (codeword %d)" % (pos, i), exp[pos], got[k]))
+                if len(problems) >= 3:
+                    return cfg, "ret", problems
+    return cfg, "ret", problems
+
+
+def _encode_configs(tier):
+    cfgs = []
+    small = list(range(0, 8))
+    if tier == "thorough":
+        vs = list(range(1, 41))
+        for mode in ref.MODES:
+            for v in vs:
+                for l in ref.LEVELS:
+                    cap = ref.capacity(v, l, mode)
+                    for n in sorted(set(small + [cap - 1, cap])):
+                        if 0 <= n <= cap:
+                            cfgs.append((mode, v, l, n))
+    else:
+        for mode in ref.MODES:
+            for i, v in enumerate((1, 2, 9, 10, 26, 27)):
+                l = ref.LEVELS[i % 4]
+                for n in small:
+                    if n <= ref.capacity(v, l, mode):
+                        cfgs.append((mode, v, l, n))
+            for v in (1, 2, 3):
+                for l in ref.LEVELS:
+                    cap = ref.capacity(v, l, mode)
+                    for n in (cap - 2, cap - 1, cap):
+                        if n >= 0:
+                            cfgs.append((mode, v, l, n))
+    return sorted(set(cfgs))
+
+
+def c06_r2(ctx, f, rid="C06.R2"):
+    ctx.rule(rid, "segment encoders by partial evaluation with symbolic payload bytes: the data codewords are the ISO 7.4 bit stream "
+                  "(mode indicator, count, digit triples/pairs/bytes as value expressions, terminator, bit padding, pad codewords)")
+    fn = anchor_fn(ctx, rid, f, "encode::encode", ["&[u8]", ECL, MODE, VERSION], CQ)
+    if not fn:
+        return None
+    _G["facts"] = f
+    cfgs = _encode_configs(ctx.tier)
+    # longest first
+    order = sorted(cfgs, key=lambda c: -(ref.total_codewords(c[1]) + c[3]))
+    mp = multiprocessing.get_context("fork")
+    with mp.Pool(min(16, os.cpu_count() or 1)) as pool:
+        res = pool.map(_encode_job, order, chunksize=4)
+    groups = _Groups()
+    und = _Und()
+    n_ok = 0
+    for cfg, kind, out in sorted(res):
+        inst = "%s/V%02d/%s/len=%d" % cfg
+        if kind == "diverge":
+            groups.add("panics", inst, "a bit stream", out)
+        elif kind != "ret":
+            und.add(out, inst)
+        elif out:
+            p0 = out[0]
+            what = "length" if p0[0] == "length" else ("header" if int(p0[0].split()[1]) < 4 + ref.cci_bits(cfg[1], cfg[0]) else "payload-or-padding")
+            groups.add("%s/%s" % (cfg[0], what), inst, "%s: %s" % (p0[0], _show_bit(p0[1])), _show_bit(p0[2]))
+        else:
+            n_ok += 1
+    if n_ok:
+        ctx.ok(rid, "%d (mode, version, level, length) cells: data codewords equal the ISO 7.4 stream bit for bit" % n_ok, n=n_ok)
+    groups.emit(ctx, rid, "encode::encode", where_fn(fn), fn.path,
+                "the data codewords are not the ISO/IEC 18004 7.4 encoding of the input (first differing bit of the first configuration "
+                "shown; a bit is 0, 1 or bit k of a value expression over payload bytes)")
+    und.emit(ctx, rid, "encode()", where_fn(fn))
+    ctx.floor(rid, "(mode, version, level, length) cells", n_ok + und.count + sum(len(e["insts"]) for e in groups.g.values()), len(cfgs))
+    return not und.count
+
+
+def _show_bit(b):
+    if b in (0, 1, None):
+        return str(b)
+    key = b[1]
+    if key[0] == "atom":
+        e = "%s[%d]" % ("byte" if key[1][0] == "sbyte" else "alnum_value", key[1][1])
+    else:
+        e = " + ".join(["%d" % key[1]] + ["%d*%s[%d]" % (c, "byte" if a[0] == "sbyte" else "alnum_value", a[1]) for a, c in key[2]])
+    return "bit %d of (%s)" % (b[2], e)
+
+
+# ---------------------------------------------------------------------------------------------------------------------
+# C09.R3: automatic mode selection over all class patterns of short inputs
+# ---------------------------------------------------------------------------------------------------------------------
+
+def _scan_job(n):
+    import itertools
+    f = _G["facts"]
+    out = []
+    for pat in itertools.product("dao", repeat=n):  # d = digit, a = alphanumeric but not digit, o = other
+        pe = peval.PEval(f, max_steps=100000)
+
+        def cls(pe_, st, a, t, want, pat=pat):
+            c = peval._deref(pe_, st, a[0])
+            if c == TOP or c[0] != "sbyte":
+                raise fold._Abort("top", "classifier called on something other than a payload byte")
+            return fold.mk_bool(pat[c[1]] in want)
+        pe.summaries["core::num::<impl u8>::is_ascii_digit"] = lambda pe_, st, a, t: cls(pe_, st, a, t, "d")
+        pe.summaries["encode::is_qr_alphanumeric"] = lambda pe_, st, a, t: cls(pe_, st, a, t, "da")
+        r = pe.call("encode::best_encoding", [("ref", ("const", ("symvec", n)))])
+        exp = "Numeric" if all(c == "d" for c in pat) else ("Alphanumeric" if all(c in "da" for c in pat) else "Byte")
+        got = to_py(r.value) if r.kind == "ret" else "%s: %s" % (r.kind, r.why)
+        if got != exp:
+            out.append(("".join(pat), exp, got, r.kind))
+    return n, 3 ** n, out
+
+
+def c09_r3(ctx, f, rid="C09.R3"):
+    ctx.rule(rid, "best_encoding by partial evaluation over every class pattern (digit / alphanumeric-only / other) of inputs up to "
+                  "length 8: Numeric iff all digits (incl. empty), Alphanumeric iff all in the set and not all digits, else Byte")
+    fn = anchor_fn(ctx, rid, f, "encode::best_encoding", ["&[u8]"], MODE)
+    if not fn:
+        return None
+    if f.fn("encode::is_qr_alphanumeric") is None:
+        ctx.abstain(rid, "classifier encode::is_qr_alphanumeric not found (renamed or inlined): class patterns cannot be driven", where_fn(fn))
+        return None
+    _G["facts"] = f
+    maxn = 8 if ctx.tier == "thorough" else 7
+    mp = multiprocessing.get_context("fork")
+    with mp.Pool(min(maxn + 1, os.cpu_count() or 1)) as pool:
+        res = pool.map(_scan_job, list(range(maxn, -1, -1)), chunksize=1)
+    groups = _Groups()
+    und = _Und()
+    n_ok = 0
+    for n, total, bad in sorted(res):
+        n_ok += total - len(bad)
+        for pat, exp, got, kind in bad:
+            if kind in ("top", "loop"):
+                und.add(got, "pattern '%s'" % pat)
+            else:
+                groups.add("%s->%s" % (exp, str(got).split(":")[0]), "pattern '%s'" % pat, exp, got)
+    if n_ok:
+        ctx.ok(rid, "%d class patterns give the most compact mode that can represent the input" % n_ok, n=n_ok)
+    groups.emit(ctx, rid, "encode::best_encoding", where_fn(fn), fn.path,
+                "automatic mode is not Numeric / Alphanumeric / Byte as the classes of the input bytes require (d = digit, a = other "
+                "alphanumeric, o = other byte; first pattern shown)")
+    und.emit(ctx, rid, "best_encoding", where_fn(fn))
+    return not und.count
+
+
+# ---------------------------------------------------------------------------------------------------------------------
+# C12.R7: the SVG document, with every module value symbolic
+# ---------------------------------------------------------------------------------------------------------------------
+
+SHAPES6 = ["square", "circle", "rounded_square", "vertical", "horizontal", "diamond"]
+
+
+def _color(sv):
+    return ("adt", "convert::Color", 0, "Color", (("string", tuple(ord(c) for c in sv)),))
+
+
+def _svg_builder(f, margin, layers, bg, dot):
+    cmds = tuple(("fn", "convert::Shape::" + sh) for sh, c in layers)
+    cols = tuple(_opt(None if c is None else _color(c)) for sh, c in layers)
+    vals = {"commands": ("array", cmds), "command_colors": ("array", cols), "margin": fold.mk_int("usize", margin),
+            "background_color": _color(bg), "dot_color": _color(dot), "image": _opt(None), "image_background_color": _color("#010203"),
+            "image_background_shape": mk_enum(SHAPE, "Square"), "image_size": _opt(None), "image_gap": _opt(None), "image_position": _opt(None)}
+    names = [fl["name"] for fl in f.adts[SVGB]["variants"][0]["fields"]]
+    if set(names) - set(vals):
+        return None
+    return ("adt", SVGB, 0, "SvgBuilder", tuple(vals[nm] for nm in names))
+
+
+def _svg_programs():
+    progs = [[]]
+    progs += [[(sh, None)] for sh in SHAPES6]
+    progs += [[("circle", None), ("rounded_square", "#c10000")], [("diamond", "#00c200"), ("square", None)],
+              [("rounded_square", None), ("vertical", "#0000c3"), ("horizontal", "#c4c400")]]
+    return progs
+
+
+def _svg_job(cfg):
+    v, margin, pi = cfg
+    import re
+    f = _G["facts"]
+    n = ref.side(v)
+    layers = _svg_programs()[pi]
+    bg, dot = "#b1b2b3", "#d1d2d3"
+    pe = peval.PEval(f, max_steps=30_000_000)
+    r = pe.call("qr::QRCode::default", [fold.mk_int("usize", n)])
+    if r.kind != "ret" or r.value == TOP or r.value[4][0] == TOP or r.value[4][0][0] != "harr":
+        return cfg, "top", "QRCode::default does not fold"
+    qr = r.value
+    h = qr[4][0]
+    for rr in range(n):
+        for cc in range(n):
+            pe.heap.put(h, rr * n + cc, ("adt", "module::Module", 0, "Module", (("tagint", "u8", 0, (rr, cc, False)),)))
+    b = _svg_builder(f, margin, layers, bg, dot)
+    if b is None:
+        return cfg, "top", "SvgBuilder has fields the rule does not know"
+    r2 = pe.run(SVGB + "::to_str", [("ref", ("const", b)), ("ref", ("const", qr))])
+    if r2.kind != "ret":
+        return cfg, r2.kind, r2.why
+    if r2.value == TOP or r2.value[0] != "string":
+        return cfg, "top", "to_str does not return a known string"
+    toks = r2.value[1]
+    # flatten: literal text with numbered holes for select tokens
+    txt = ""
+    holes = []
+    for tk in toks:
+        if isinstance(tk, int):
+            txt += chr(tk)
+        elif tk[0] == "sel":
+            txt += "\x01%d\x01" % len(holes)
+            holes.append(tk)
+        else:
+            return cfg, "top", "unknown text in the document: %s" % str(tk)[:80]
+    S = n + 2 * margin
+    problems = []
+    m = re.match(r'^<svg viewBox="0 0 (\d+) (\d+)" xmlns="http://www.w3.org/2000/svg"><rect width="(\d+)px" height="(\d+)px" fill="([^"]*)"/>(.*)</svg>$', txt, re.S)
+    if not m:
+        return cfg, "ret", [("skeleton", "<svg viewBox=.. xmlns=..><rect width height fill/>..</svg>", txt[:120])]
+    if not (m.group(1) == m.group(2) == m.group(3) == m.group(4) == str(S)):
+        problems.append(("side", S, m.group(1, 2, 3, 4)))
+    if m.group(5) != bg:
+        problems.append(("background fill", bg, m.group(5)))
+    body = m.group(6)
+    paths = re.findall(r'<path d="([^"]*)"((?: [a-z-]+="[^"]*")*)/>', body)
+    rest = re.sub(r'<path d="[^"]*"(?: [a-z-]+="[^"]*")*/>', "", body)
+    if rest:
+        problems.append(("extra markup", "", rest[:80]))
+    want_layers = layers or [("square", None)]
+    if len(paths) != len(want_layers):
+        problems.append(("layer count", len(want_layers), len(paths)))
+    for li, ((d, attrs), (shape, colr)) in enumerate(zip(paths, want_layers)):
+        ids = re.findall(r"\x01(\d+)\x01", d)
+        if re.sub(r"\x01\d+\x01", "", d):
+            problems.append(("layer %d: unconditional path data" % li, "", re.sub(r"\x01\d+\x01", "", d)[:60]))
+        if len(ids) != n * n:
+            problems.append(("layer %d: sub-path slots" % li, n * n, len(ids)))
+        for k, hid in enumerate(ids[:n * n]):
+            tk = holes[int(hid)]
+            y, x = divmod(k, n)
+            then = "".join(chr(c) if isinstance(c, int) else "\x02" for c in tk[2])
+            other = tk[3]
+            mm = re.match(r"^M(\d+(?:\.\d+)?),(\d+(?:\.\d+)?)([^M\"<>&\x02]*)$", then)
+            ok = tk[1] == (y, x) and not other and mm is not None
+            if ok:
+                a, bb = float(mm.group(1)), float(mm.group(2))
+                ok = x + margin <= a <= x + margin + 1 and y + margin <= bb <= y + margin + 1
+            if not ok:
+                problems.append(("layer %d: module (%d,%d)" % (li, y, x), "dark -> one sub-path M in [%d,%d]x[%d,%d]; light -> nothing" % (
+                    x + margin, x + margin + 1, y + margin, y + margin + 1), (tk[1], then[:40], "else:%d" % len(other))))
+                break
+        want = colr or dot
+        am = dict(re.findall(r' ([a-z-]+)="([^"]*)"', attrs))
+        if am.get("fill") != want:
+            problems.append(("layer %d: fill" % li, want, am.get("fill")))
+        if "stroke" in am and am["stroke"] != want:
+            problems.append(("layer %d: stroke" % li, want, am.get("stroke")))
+    return cfg, "ret", problems
+
+
+def c12_r7(ctx, f, rid="C12.R7"):
+    ctx.rule(rid, "SVG document by partial evaluation with symbolic module values: square viewBox/background of side size+2*margin in "
+                  "the background colour, one <path> per layer with exactly one sub-path slot per module, taken iff the module is dark "
+                  "and anchored in the module's cell, filled with the layer's colour")
+    fn = anchor_fn(ctx, rid, f, SVGB + "::to_str")
+    if not fn:
+        return None
+    if SVGB not in f.adts:
+        ctx.anchor_missing(rid, SVGB)
+        return None
+    _G["facts"] = f
+    progs = _svg_programs()
+    cfgs = []
+    versions = (1, 2) if ctx.tier != "thorough" else (1, 2, 3, 7)
+    for v in versions:
+        for margin in ((0, 4) if ctx.tier != "thorough" else (0, 1, 4, 9)):
+            for pi in range(len(progs)):
+                cfgs.append((v, margin, pi))
+    mp = multiprocessing.get_context("fork")
+    with mp.Pool(min(16, os.cpu_count() or 1)) as pool:
+        res = pool.map(_svg_job, sorted(cfgs, reverse=True), chunksize=1)
+    groups = _Groups()
+    und = _Und()
+    n_ok = 0
+    for cfg, kind, out in sorted(res):
+        inst = "V%02d/margin=%d/layers=%s" % (cfg[0], cfg[1], "+".join(sh for sh, c in progs[cfg[2]]) or "default")
+        if kind == "diverge":
+            groups.add("panics", inst, "a document", out)
+        elif kind != "ret":
+            und.add(out, inst)
+        elif out:
+            p0 = out[0]
+            groups.add(re_key(p0[0]), inst, p0[1], p0[2])
+        else:
+            n_ok += 1
+    if n_ok:
+        ctx.ok(rid, "%d (version, margin, layer program) documents satisfy every clause for every matrix content" % n_ok, n=n_ok)
+    groups.emit(ctx, rid, SVGB + "::to_str", where_fn(fn), fn.path,
+                "the SVG document violates a clause of the documented rendering (first configuration shown; module conditions are "
+                "(row, column))")
+    und.emit(ctx, rid, "SvgBuilder::to_str", where_fn(fn))
+    ctx.floor(rid, "documents evaluated", n_ok + und.count + sum(len(e["insts"]) for e in groups.g.values()), len(cfgs))
+    return not und.count
+
+
+def re_key(s_):
+    import re
+    return re.sub(r"\d+", "N", s_).replace(" ", "_")
